@@ -64,3 +64,12 @@ def smooth_max_plus_min(x, y, mu):
 def smooth_abs_even(x, mu):
     from openmdao.jax_funcs.smooth import smooth_abs
     return smooth_abs(x, mu), smooth_abs(-x, mu)
+
+
+# ---- C12 ------------------------------------------------------------------------------------
+def fd_sub_point_is_side_effect_free(self, system, idx_info, delta, total):
+    # the saves performed by FiniteDifference.compute_approx_col_iter before any point is run
+    self._starting_outs = system._outputs.asarray(copy=True)
+    self._starting_resids = system._residuals.asarray(copy=True)
+    self._starting_ins = system._inputs.asarray(copy=True)
+    self._run_sub_point(system, idx_info, delta, total)
